@@ -1,7 +1,8 @@
 // C15 (other index classes): every class is compared with the list-filter specification on one random scenario per
 // input line:  <seed> <n items> <coordinate range> <node capacity>
 // exact indexes (SimpleSTRtree, legacy STRtree, SIRtree, SortedPackedIntervalRTree, KdTree, VertexSequencePackedRtree)
-// must return exactly the matching items; Quadtree (documented as a primary filter) must not miss any.
+// must return exactly the matching items; Quadtree (documented as a primary filter) and HotPixelIndex (candidates for
+// HotPixel::intersects) must not miss any.
 // output: OK <class>=<queries> ...   or   FAIL <class> <details>
 #include <geos/index/strtree/SimpleSTRtree.h>
 #include <geos/index/strtree/STRtree.h>
@@ -15,6 +16,9 @@
 #include <geos/index/chain/MonotoneChain.h>
 #include <geos/index/chain/MonotoneChainBuilder.h>
 #include <geos/index/chain/MonotoneChainOverlapAction.h>
+#include <geos/noding/snapround/HotPixelIndex.h>
+#include <geos/noding/snapround/HotPixel.h>
+#include <geos/geom/PrecisionModel.h>
 #include <geos/geom/CoordinateSequence.h>
 #include <geos/geom/Envelope.h>
 #include <geos/geom/LineSegment.h>
@@ -158,6 +162,34 @@ int main() {
                 if (miss) fail = "MonotoneChain::computeOverlaps missed " + std::to_string(miss) + " segment pairs with intersecting envelopes";
                 stats += " MonotoneChain=" + std::to_string((da.size() - 1) * (db.size() - 1));
             }
+        }
+        // ---- hot pixel index: a segment query visits every hot pixel that a linear scan finds intersecting the segment
+        if (fail.empty() && n > 0) {
+            using namespace geos::noding::snapround;
+            static const double scales[] = {1.0, 10.0, 0.5, 4.0};
+            double scale = scales[seed % 4];
+            geos::geom::PrecisionModel pm(scale);
+            HotPixelIndex hpi(&pm);
+            std::set<HotPixel*> pix;
+            auto frac = [&](int v) { return (double)v + (double)ri(0, 7) / 8.0; };
+            for (int i = 0; i < n; i++) { Coordinate c(frac((int)items[i].e.getMinX()), frac((int)items[i].e.getMinY())); pix.insert(hpi.add(c)); }
+            struct V : public kdtree::KdNodeVisitor { std::set<HotPixel*> seen; void visit(kdtree::KdNode* nd) override { seen.insert((HotPixel*)nd->getData()); } };
+            int nq = 0;
+            for (int q = 0; q < NQ && fail.empty(); q++) {
+                Coordinate p0(frac(ri(-1, R)), frac(ri(-1, R))), p1;
+                if (q % 4 == 0) p1 = p0;                                                   // zero-length
+                else if (q % 4 == 1) p1 = Coordinate(p0.x + ri(0, R / 3 + 1), p0.y);       // horizontal
+                else if (q % 4 == 2) { HotPixel* h = *std::next(pix.begin(), ri(0, (int)pix.size() - 1));   // ends exactly on a pixel edge/corner
+                                       p1 = Coordinate(h->getCoordinate().x + 0.5 / scale, h->getCoordinate().y - 0.5 / scale); }
+                else p1 = Coordinate(frac(ri(-1, R)), frac(ri(-1, R)));
+                V v; hpi.query(p0, p1, v);
+                for (HotPixel* h : pix) {
+                    bool need = h->intersects(p0, p1);
+                    if (need && !v.seen.count(h)) { fail = "HotPixelIndex missed pixel " + h->getCoordinate().toString() + " scale " + std::to_string(scale) + " segment " + p0.toString() + " " + p1.toString(); break; }
+                }
+                nq++;
+            }
+            stats += " HotPixelIndex=" + std::to_string(nq);
         }
         if (fail.empty()) printf("OK%s\n", stats.c_str()); else printf("FAIL %s\n", fail.c_str());
         fflush(stdout);
